@@ -12,7 +12,8 @@ RULE = ("Hypothesis draws W in [1,12], N in [1,6], 1..6 series with lengths T_i 
         "strided view, writable or read-only. Oracle: an independent construction expected[i, jN:(j+1)N] = series[i+j] compared "
         "as uint64 views; multi-series result must equal the row-wise concatenation of the per-series expectations; "
         "split_joint_labels + pad_missing_labels must return one list per series of the original length whose inner parts "
-        "concatenate to the input. Non-trivial = W>=2 and some T_i>W (windows really overlap); distinct by SHA-1 of the case.")
+        "concatenate to the input. Non-trivial = W>=2 and some T_i>W (windows really overlap); distinct by SHA-1 of the case."
+        ' Layouts include row-strided (recordings interleaved in one buffer) and negative row stride; cases run under ambient DEBUG logging, floating-point errors raised, warnings as errors, the multiprocessing switch set, and in a python -O process.')
 ASSUMPTIONS = ["float64 inputs only: bit-exactness is stated for doubles; other dtypes are converted by NumPy and are outside the property"]
 
 SPECIAL_BITS = [0x7FF8000000000000, 0x7FF0000000000001, 0xFFF8DEADBEEF0001, 0x7FF0000000000000, 0xFFF0000000000000,
